@@ -22,7 +22,9 @@ def round_of(name: str) -> str:
         return "4" if pid in ("C14", "C20") else "3"      # C14 / C20 delivered nothing in round 3
     if n <= 12:
         return "5" if pid in ("C14", "C20") else "4"
-    return "5"
+    if n <= 15:
+        return "6" if pid in ("C14", "C20") else "5"
+    return "6"
 
 # first-run status of the round-1 seeds (recorded in DESIGN 7.5 at the time; the 8th exit-2 case was not noted)
 FIRST = {k: "missed" for k in ("C01-3", "C02-2", "C02-3", "C09-1", "C09-2", "C09-3")}
